@@ -28,7 +28,7 @@ for p in props:
         'property_id': p,
         'quick_cmd': f'/venv/bin/python -m bubusverif.run --property {p} --tier quick',
         'thorough_cmd': f'/venv/bin/python -m bubusverif.run --property {p} --tier thorough',
-        'evidence_file': f'evidence/{p}.json',
+        'evidence_file': f'/verif/evidence/{p}.json',
         'replay_cmd_template': f'/venv/bin/python -m bubusverif.run --property {p} --replay {{path}}',
         'engine': 'bubusverif',
         'level_claimed': {'category': c.level, 'text': LEVEL_TEXT[c.level] + ' ' + NOTES.get('level', {}).get(p, ''), 'design_ref': f'DESIGN.md section 4, {p}'},
